@@ -419,7 +419,10 @@ func ruleRecordProtection13(c *Ctx, r *Report) {
 			okKey := isParam(nc[0].Call.Args[0], "sequenceNumberKey") && sliceOf(nc[0].Call.Args[1], 4, 16)
 			okCtr := sc[0].Call.Args[0] == cipher
 			if call, isCall := sc[0].Call.Args[1].(*ssa.Call); isCall && strings.HasSuffix(calleeName(&call.Call), "littleEndian).Uint32") {
-				okCtr = okCtr && sliceOf(call.Call.Args[1], 0, 4)
+				// Uint32 reads the first four bytes of what it is handed: a range that starts at
+				// byte 0 of the ciphertext and holds at least four
+				pr, l, h, isRange := paramRange(call.Call.Args[1], 0)
+				okCtr = okCtr && isRange && pr.Name() == "encryptedRecord" && pr.Parent() == fn && l == 0 && (h < 0 || h >= 4)
 			} else {
 				okCtr = false
 			}
@@ -684,6 +687,48 @@ func ruleNonce13(c *Ctx, r *Report) {
 			what, good := nonceXorShape(fn, st, ia, nonce)
 			r.Check(good, rule, short(fn)+":xor", c.ipos(st), what, "nonce byte update deviates from RFC 8446 5.3 (iv XOR big-endian sequence number, right-aligned): "+what)
 		}
+	}
+	// or as one 64-bit word: PutUint64(nonce[4:], Uint64(nonce[4:]) ^ sequenceNumber), big-endian
+	for _, put := range findCalls(fn, nameIs("(encoding/binary.bigEndian).PutUint64", "(encoding/binary.littleEndian).PutUint64")) {
+		tailOf := func(v ssa.Value) (int64, bool) {
+			sl, ok := v.(*ssa.Slice)
+			if !ok || sl.X != nonce || sl.High != nil || sl.Low == nil {
+				return 0, false
+			}
+			k, isK := constInt(sl.Low)
+			return k, isK
+		}
+		lo, okDst := tailOf(put.Call.Args[1])
+		if !okDst {
+			continue
+		}
+		n++
+		what, good := "", false
+		x, isX := put.Call.Args[2].(*ssa.BinOp)
+		switch {
+		case calleeName(&put.Call) != "(encoding/binary.bigEndian).PutUint64":
+			what = "the word is stored little-endian"
+		case lo != 4:
+			what = fmt.Sprintf("the word is stored at nonce[%d:], not at the last eight of twelve bytes", lo)
+		case !isX || x.Op != token.XOR:
+			what = "the stored word is not an XOR"
+		default:
+			for _, pr := range [][2]ssa.Value{{x.X, x.Y}, {x.Y, x.X}} {
+				rd, isRd := pr[0].(*ssa.Call)
+				p, isP := pr[1].(*ssa.Parameter)
+				if !isRd || !isP || p.Name() != "sequenceNumber" || calleeName(&rd.Call) != "(encoding/binary.bigEndian).Uint64" {
+					continue
+				}
+				if l2, ok2 := tailOf(rd.Call.Args[1]); ok2 && l2 == lo {
+					good = true
+					what = "nonce[4:12] = BigEndian(nonce[4:12]) ^ sequenceNumber"
+				}
+			}
+			if !good {
+				what = "the word is not the big-endian value of the same eight IV bytes XOR the sequence number"
+			}
+		}
+		r.Check(good, rule, short(fn)+":xor", c.ipos(put), what, "nonce update deviates from RFC 8446 5.3 (iv XOR big-endian sequence number, right-aligned): "+what)
 	}
 	r.Floor(rule+":xor-sites", n, 1)
 }
@@ -1046,16 +1091,29 @@ func ruleLowBits13(c *Ctx, r *Report) {
 	}
 	var widths []string
 	// one comparison under a mask selected by the S bit: wire&m != seq&m with m = S ? 0xffff : 0xff
-	selected := func(v ssa.Value) (ssa.Value, *ssa.Phi) {
+	// the mask: a phi of constants, or computed from the number of bytes on the wire
+	selected := func(v ssa.Value) (ssa.Value, ssa.Value) {
 		and, ok := stripConv(v).(*ssa.BinOp)
 		if !ok || and.Op != token.AND {
 			return nil, nil
 		}
-		if phi, isPhi := stripConv(and.Y).(*ssa.Phi); isPhi {
-			return stripConv(and.X), phi
+		_, kx := stripConv(and.X).(*ssa.Const)
+		_, ky := stripConv(and.Y).(*ssa.Const)
+		if kx || ky {
+			return nil, nil // a constant mask: the two-comparison form below
 		}
-		if phi, isPhi := stripConv(and.X).(*ssa.Phi); isPhi {
-			return stripConv(and.Y), phi
+		isOperand := func(x ssa.Value) bool {
+			if _, _, _, isL := fieldLoad(x); isL {
+				return true
+			}
+			_, isP := x.(*ssa.Parameter)
+			return isP
+		}
+		switch {
+		case isOperand(stripConv(and.X)):
+			return stripConv(and.X), stripConv(and.Y)
+		case isOperand(stripConv(and.Y)):
+			return stripConv(and.Y), stripConv(and.X)
 		}
 		return nil, nil
 	}
@@ -1079,7 +1137,7 @@ func ruleLowBits13(c *Ctx, r *Report) {
 			if sbit {
 				want = 0xffff
 			}
-			w := (&Walk{Fn: fn, Assume: func(v ssa.Value) (Val, bool) {
+			w := &Walk{Fn: fn, Follow: followSamePkg(fn), Assume: func(v ssa.Value) (Val, bool) {
 				if v == ssa.Value(bo) {
 					return mismatch, true
 				}
@@ -1087,13 +1145,59 @@ func ruleLowBits13(c *Ctx, r *Report) {
 					return vBool(sbit), true
 				}
 				return unknown, false
-			}}).FromEntry()
-			okSel := len(w.Returns) > 0 && !w.overflow
-			for _, ro := range w.Returns {
-				k, isK := constInt(ro.RawEnv[pa])
-				if !isK || k != want {
-					okSel = false
+			}}
+			// the value of the mask where the comparison is made
+			maskOK := true
+			var maskAt func(v ssa.Value, env Env, raw map[*ssa.Phi]ssa.Value, d int) (int64, bool)
+			maskAt = func(v ssa.Value, env Env, raw map[*ssa.Phi]ssa.Value, d int) (int64, bool) {
+				if d > 8 {
+					return 0, false
 				}
+				if k, isK := constInt(v); isK {
+					return k, true
+				}
+				if ev := w.eval(v, env); ev.Kind == 3 {
+					return ev.I, true
+				}
+				switch x := v.(type) {
+				case *ssa.Phi:
+					if rv, has := raw[x]; has && rv != ssa.Value(x) {
+						return maskAt(rv, env, raw, d+1)
+					}
+				case *ssa.Convert:
+					return maskAt(x.X, env, raw, d+1)
+				case *ssa.BinOp:
+					l, okL := maskAt(x.X, env, raw, d+1)
+					rr, okR := maskAt(x.Y, env, raw, d+1)
+					if !okL || !okR {
+						return 0, false
+					}
+					switch x.Op {
+					case token.ADD:
+						return l + rr, true
+					case token.SUB:
+						return l - rr, true
+					case token.MUL:
+						return l * rr, true
+					case token.SHL:
+						if rr >= 0 && rr < 63 {
+							return l << uint(rr), true
+						}
+					}
+				}
+				return 0, false
+			}
+			w.VisitRaw = func(in ssa.Instruction, env Env, raw map[*ssa.Phi]ssa.Value) bool {
+				if in == ssa.Instruction(bo) {
+					if k, isK := maskAt(pa, env, raw, 0); !isK || k != want {
+						maskOK = false
+					}
+				}
+				return true
+			}
+			w.FromEntry()
+			okSel := len(w.Returns) > 0 && !w.overflow && maskOK && w.Reached[bo]
+			for _, ro := range w.Returns {
 				if len(ro.Vals) == 1 && ro.Vals[0].Kind == 2 && ro.Vals[0].B {
 					okSel = false // a mismatch under this mask is accepted
 				}
